@@ -68,9 +68,11 @@ def field_types(capacity: st.SearchStrategy, max_leaves: int = 10, delimited: bo
     )
     base = st.one_of(primitive(), primitive(), arrays_of(primitive(), capacity), special_arrays)
 
+    nconst = st.sampled_from([0, 0, 0, 1, 2])  # constants do not take part in the layout or on the wire
+
     def extend(children: st.SearchStrategy) -> st.SearchStrategy:
-        struct = _fields(children, True, 0, 5).map(lambda fs: ["struct", fs])
-        union = _fields(children, False, 2, 4).map(lambda fs: ["union", fs])
+        struct = st.tuples(_fields(children, True, 0, 5), nconst).map(lambda t: ["struct", t[0], t[1]])
+        union = st.tuples(_fields(children, False, 2, 4), nconst).map(lambda t: ["union", t[0], t[1]])
         comp = st.one_of(struct, struct, union)
         if delimited:
             comp = st.one_of(comp, comp, st.tuples(comp, st.integers(0, 3)).map(lambda t: ["delim", t[0], t[1]]))
@@ -83,8 +85,9 @@ def composites(capacity: typing.Optional[st.SearchStrategy] = None, max_leaves: 
     """Top-level composite specs (struct / union / delimited)."""
     cap = capacity if capacity is not None else small_capacity()
     ft = field_types(cap, max_leaves=max_leaves, delimited=delimited)
-    struct = _fields(ft, True, 0, 6).map(lambda fs: ["struct", fs])
-    union = _fields(ft, False, 2, 5).map(lambda fs: ["union", fs])
+    nconst = st.sampled_from([0, 0, 0, 1, 3])
+    struct = st.tuples(_fields(ft, True, 0, 6), nconst).map(lambda t: ["struct", t[0], t[1]])
+    union = st.tuples(_fields(ft, False, 2, 5), nconst).map(lambda t: ["union", t[0], t[1]])
     comp = st.one_of(struct, struct, union)
     if delimited:
         comp = st.one_of(comp, comp, st.tuples(comp, st.integers(0, 3)).map(lambda t: ["delim", t[0], t[1]]))
@@ -127,13 +130,24 @@ def _ints_around(lo: int, hi: int, out_of_range: bool) -> st.SearchStrategy:
     inside = st.one_of(st.sampled_from(sorted({lo, hi, 0 if lo <= 0 <= hi else lo, min(hi, lo + 1), max(lo, hi - 1)})), st.integers(lo, hi))
     if not out_of_range:
         return inside
+    # numbers may also be given as Python floats; only integral-valued ones are generated (how a fractional value is rounded is
+    # not the property's business), e.g. 2.0**64 for a saturated uint64
+    def as_float(n: int) -> typing.Any:
+        x = float(n)
+        return {"fint": n} if int(x) == n else n
+
+    float_inputs = st.one_of(
+        st.sampled_from([hi + 1, 2 * (hi + 1), lo - 1, -(1 << 70), 1 << 70, 1 << 64, 1 << 63, -(1 << 63), 1 << 53]).map(as_float),
+        st.integers(max(lo, -(1 << 53)), min(hi, 1 << 53)).map(as_float),
+        st.integers(50, 80).map(lambda e: as_float(1 << e)),
+    )
     span = hi - lo + 1
     outside = st.one_of(
         st.sampled_from([lo - 1, hi + 1, lo - span, hi + span, hi + span + 1, -(1 << 70), 1 << 70]),
         st.integers(hi + 1, hi + 3 * span),
         st.integers(lo - 3 * span, lo - 1),
     )
-    return st.one_of(inside, inside, outside)
+    return st.one_of(inside, inside, outside, float_inputs)
 
 
 def values(spec: typing.Any, out_of_range: bool = False, omit: bool = False) -> st.SearchStrategy:
@@ -177,7 +191,7 @@ def values(spec: typing.Any, out_of_range: bool = False, omit: bool = False) -> 
                     b = s.encode("utf-8")
                 return s
 
-            return st.one_of(st.text(max_size=cap), st.text(alphabet="aé€😀\x00", max_size=cap)).map(fit)
+            return st.one_of(st.text(max_size=cap), st.text(alphabet="aé€😀\x00\ufeff", max_size=cap), st.sampled_from(["\ufeff", "\ufeffa", "\ufeff\ufeff", "a\ufeff"])).map(fit)
         sizes = st.one_of(st.sampled_from([0, cap]), st.integers(0, cap))
         return sizes.flatmap(lambda n: st.lists(values(spec[1], out_of_range, omit), min_size=n, max_size=n))
     if k == "struct":
